@@ -39,6 +39,7 @@ func runC15(c *Ctx) {
 	borrow(c, "O5", "C06", "O5", "", "evictions and the preemptor's placement are one statement: no eviction is kept when the placement is undone")
 	borrow(c, "O5", "C13", "O5", "a failed eviction does not end the commit", "victims evicted for real while the nomination they were evicted for is dropped are evicted again for the same workload in the next cycle")
 	runC15Own(c)
+	runC15ActionWiring(c)
 }
 
 // runC15Own: guards that no other property states. The solvers approve an eviction by SIMULATING the allocation that
@@ -106,4 +107,81 @@ func runC15Own(c *Ctx) {
 		}
 	}
 	c.Floor("O7", "PROV node-placement capacity reads", nScore, 2)
+}
+
+// runC15ActionWiring (O8, O9): allocate and the three evicting actions must look at the same workloads, or one of them
+// frees capacity for a workload another never serves.
+//
+//	O8 — every action that orders PENDING workloads (FilterNonPending) also filters the unready ones (FilterUnready):
+//	     allocate without it binds the pods of a gang below its minimum, stale-gang eviction evicts them, and the
+//	     pair repeats every cycle;
+//	O9 — each action limits its queue depth with ITS OWN entry of queueDepthPerAction (the constant its Name()
+//	     returns): reclaim looking deeper than allocate evicts for a workload allocate never reaches, allocate hands
+//	     the capacity back to the victim, and reclaim evicts it again.
+func runC15ActionWiring(c *Ctx) {
+	p := c.P
+	n8, n9 := 0, 0
+	for _, fn := range p.FuncsIn("pkg/scheduler/actions") {
+		if isTestdataOrMock(fn) || fn.Name() != "Execute" || fn.Signature.Recv() == nil {
+			continue
+		}
+		// the action's own name constant
+		var own *ssa.Const
+		recvT := fn.Signature.Recv().Type()
+		if nameFn := p.SSA.LookupMethod(recvT, fn.Pkg.Pkg, "Name"); nameFn != nil && len(nameFn.Blocks) > 0 {
+			for _, b := range nameFn.Blocks {
+				if ret, ok := b.Instrs[len(b.Instrs)-1].(*ssa.Return); ok && len(ret.Results) == 1 {
+					if k, isC := ret.Results[0].(*ssa.Const); isC {
+						own = k
+					}
+				}
+			}
+		}
+		for _, in := range instrsIn(fn, func(in ssa.Instruction) bool {
+			cc, ok := in.(ssa.CallInstruction)
+			return ok && calleeOf(cc) != nil && calleeOf(cc).Name() == "GetJobsDepth"
+		}) {
+			n9++
+			args := in.(ssa.CallInstruction).Common().Args
+			k, isC := args[len(args)-1].(*ssa.Const)
+			ok := isC && own != nil && k.Value != nil && own.Value != nil && k.Value.ExactString() == own.Value.ExactString()
+			got := termOf(args[len(args)-1]).String()
+			c.Check(ok, "O9", "CONST", funcKey(fn)+": the queue depth is the one configured for this action", instrPos(in), got,
+				"the action limits its job order with the depth configured for another action ("+got+"): with queueDepthPerAction set it looks at a different prefix of each queue than allocate does, evicts for a workload allocate never reaches, and repeats the eviction every cycle")
+		}
+		// options literal(s) of NewJobsOrderByQueues built in this function
+		for _, in := range instrsIn(fn, func(in ssa.Instruction) bool {
+			st, ok := in.(*ssa.Store)
+			if !ok {
+				return false
+			}
+			fa, ok := st.Addr.(*ssa.FieldAddr)
+			return ok && fieldOfAddr(fa) != nil && fieldOfAddr(fa).Name() == "FilterNonPending"
+		}) {
+			st := in.(*ssa.Store)
+			if k, isC := st.Val.(*ssa.Const); !isC || k.Value == nil || k.Value.String() != "true" {
+				continue
+			}
+			n8++
+			base := st.Addr.(*ssa.FieldAddr).X
+			unready := false
+			for _, r := range *base.Referrers() {
+				fa, ok := r.(*ssa.FieldAddr)
+				if !ok || fieldOfAddr(fa) == nil || fieldOfAddr(fa).Name() != "FilterUnready" {
+					continue
+				}
+				for _, r2 := range *fa.Referrers() {
+					if s2, ok := r2.(*ssa.Store); ok && s2.Addr == ssa.Value(fa) {
+						if k, isC := s2.Val.(*ssa.Const); isC && k.Value != nil && k.Value.String() == "true" {
+							unready = true
+						}
+					}
+				}
+			}
+			c.Check(unready, "O8", "CONST", funcKey(fn)+": pending workloads are ordered with FilterUnready", instrPos(in), "FilterNonPending ∧ FilterUnready",
+				"the action orders pending workloads without filtering the unready ones: the pods of a gang that has fewer alive pods than its minimum are placed (bound, or victims are evicted for them), the gang still cannot run, stale-gang eviction removes them, and the same happens in the next cycle")
+		}
+	}
+	c.Floor("O8", "CONST pending-workload orders", n8, 4)
+	c.Floor("O9", "CONST queue-depth lookups", n9, 4)
 }
